@@ -1,10 +1,10 @@
 // Package c14: concurrent renders are isolated and race-free.
 //
-//	(a) in-process: the observable trace of ONE real render (writer bytes / buffered bytes after every action, which
+//	(a) on one goroutine: the observable trace of ONE real render (writer bytes / buffered bytes after every action, which
 //	    Buffer it got, whether that Buffer can be obtained from the pool while in use) against the model's trace;
 //	    renders after a stale Buffer (unflushed bytes, sticky error, somebody else's writer) was planted in the pool;
 //	    the development-mode cache against the model over file rewrites;
-//	(a4) in-process, interleaved on an explicit schedule (one goroutine moves at a time, down to single ops of a render):
+//	(a4) interleaved on an explicit schedule (one goroutine moves at a time, down to single ops of a render):
 //	    2-4 goroutines with destinations of several dynamic types (sink, their own bufio.Writer of any size that they keep
 //	    and write a header / trailer to themselves, a templ Buffer they hold, a bytes.Buffer), requests through ONE
 //	    CSS-middleware instance with registered and unregistered classes and script templates, nonces, pool entries
@@ -14,6 +14,12 @@
 //	    and failing writers, the same destination kinds and middleware requests in bursts on new middleware instances,
 //	    with and without TEMPL_DEV_MODE=true; every goroutine's bytes against its sequential
 //	    reference and against the model's stand-alone output; a race report or a differing output is the replay.
+//
+// Nothing of (a)-(b) executes templ's runtime in the check's own process: the scenarios of every family run in child
+// processes (child.go: this binary again, in batches; the -race probe), one result line per finished scenario. A child
+// that crashes (panic, stack overflow, deadlock) or stalls is charged to the scenario it was running: that scenario is
+// run again alone in a new child with progress notes, shrunk, and reported as a property failure (shape render-crashed /
+// render-hung) with the scenario as the replay; the rest of the batch goes on in a new child.
 package c14
 
 import (
@@ -24,8 +30,7 @@ import (
 	"os"
 	"os/exec"
 	"path/filepath"
-	"runtime"
-	"runtime/debug"
+	"sort"
 	"strconv"
 	"strings"
 	"sync/atomic"
@@ -363,12 +368,12 @@ func (s *traceSink) Write(p []byte) (int, error) {
 }
 
 type traceRun struct {
-	records  []string
-	reused   bool // the Buffer the render got was the planted one
-	inPool   int
-	observed int
-	released int // after the render, its Buffer was found in the pool
-	res      probe.Result
+	Records  []string     `json:"records"`
+	Reused   bool         `json:"reused"` // the Buffer the render got was the planted one
+	InPool   int          `json:"in_pool"`
+	Observed int          `json:"observed"`
+	Released int          `json:"released"` // after the render, its Buffer was found in the pool
+	Res      probe.Result `json:"res"`
 }
 
 // runTrace renders one goroutine's program on the calling goroutine, recording "writer bytes,buffered bytes" after every action.
@@ -379,7 +384,7 @@ func runTrace(sc *probe.Scenario, g probe.Goroutine, planted *templruntime.Buffe
 	rec := func(buffered string) {
 		r := fmt.Sprintf("%d,%s", sink.Buf.Len(), buffered)
 		if r != last {
-			tr.records = append(tr.records, r)
+			tr.Records = append(tr.Records, r)
 			last = r
 		}
 	}
@@ -389,7 +394,7 @@ func runTrace(sc *probe.Scenario, g probe.Goroutine, planted *templruntime.Buffe
 			b := w.(*templruntime.Buffer)
 			sink.cur = b
 			if b == planted {
-				tr.reused = true
+				tr.Reused = true
 			}
 			if poolHolds(b) {
 				sink.inPool++
@@ -397,7 +402,7 @@ func runTrace(sc *probe.Scenario, g probe.Goroutine, planted *templruntime.Buffe
 			rec(strconv.Itoa(b.VerifC14Buffered()))
 		case "release":
 			if sink.cur != nil && poolHolds(sink.cur) {
-				tr.released++
+				tr.Released++
 			}
 			sink.cur = nil
 			rec("-")
@@ -409,8 +414,8 @@ func runTrace(sc *probe.Scenario, g probe.Goroutine, planted *templruntime.Buffe
 	}
 	defer func() { probe.Hook = nil }()
 	rec("-")
-	tr.res = probe.RunGoroutineOn(g, &sink.Sink, sink, func() { rec("-") })
-	tr.inPool, tr.observed = sink.inPool, sink.observed
+	tr.Res = probe.RunGoroutineOn(g, &sink.Sink, sink, func() { rec("-") })
+	tr.InPool, tr.Observed = sink.inPool, sink.observed
 	return tr
 }
 
@@ -463,60 +468,277 @@ func Run(c *core.Ctx) {
 		"specification spec/Isolated.v (a render alone: private buffer, private context value with its own set of emitted classes and scripts, direct file reads, its own writer possibly behind its own bufio.Writer)",
 		"the modelled actions are atomic and are the only accesses to shared state: validated, not proved, by the -race runs (Go race detector, sync.Pool and sync.Mutex semantics)",
 		"hand-built probe components copy the statement shape the generator emits (internal/c14/probe/probe_templ.go)",
-		"extraction: ExtrOcamlBasic only; ocaml/driver.ml", "Go harness internal/c14 and the Go toolchain")
+		"extraction: ExtrOcamlBasic only; ocaml/driver.ml", "Go harness internal/c14 and the Go toolchain",
+		"os/exec: every scenario that executes templ's runtime runs in a child process (this binary again, or the -race probe); a child that dies or stalls is charged to the scenario it was running")
 	c.Assume = append(c.Assume,
 		"each goroutine uses its own context and its own writer (the property's premise)",
 		"sync.Pool.Get returns some pooled object or a new one and nothing else touches pooled objects; atomic.AddInt64 and the mutex-protected section of getWatchedStrings are single atomic actions",
 		"the text files do not change during a run for C14_cache_linear (C14_cache_refresh covers a rewrite with a later modification time after 100 ms; within 100 ms of the cached modification time development mode serves the cached lines by design)",
 		"bufio's 4096-byte automatic flush is represented by explicit Flush actions; probe renders compared action by action stay below it",
 		"a goroutine's own bufio.Writer / held templ Buffer / bytes.Buffer stands in front of a writer that never fails (when its automatic flush happens is then unobservable in the final document); the goroutine flushes it itself when it has finished",
-		"interleaved runs: goroutines move one at a time (channel hand-over), so the observed interleavings are those of whole ops; simultaneous memory access is left to the -race runs")
+		"interleaved runs: goroutines move one at a time (channel hand-over), so the observed interleavings are those of whole ops; simultaneous memory access is left to the -race runs",
+		fmt.Sprintf("a render of the probe components needs less than %d MB of stack and a scenario less than %v between two results (beyond that the child counts as crashed / hung)", maxStack>>20, stallTime))
 	c.Proofs()
 
 	if c.Replay != "" {
-		replayInterleaved(c)
+		replay(c)
 		return
 	}
 	traceTie(c)
 	plantedTie(c)
 	cacheTie(c)
 	interleavedTie(c)
+	c.Extra["child_processes_in_process_families"] = childRuns
 	raceRuns(c)
+}
+
+// ---------- crashed / hung children ----------
+
+// shrinkJob looks for a smaller job on which still() holds: fewer goroutines, fewer renders, plainer renders, a shorter schedule.
+func shrinkJob(j job, budget int, limit time.Duration, still func(job) bool) job {
+	if j.Sc == nil {
+		return j
+	}
+	deadline := time.Now().Add(limit)
+	try := func(sc *probe.Scenario, sched []int) bool {
+		if budget <= 0 || time.Now().After(deadline) {
+			return false
+		}
+		budget--
+		cand := j
+		cand.Sc, cand.Sched = sc, sched
+		if cand.Mode != "" {
+			cand.Mode = strings.TrimSuffix(cand.Mode, " (shrunk)") + " (shrunk)"
+		}
+		if still(cand) {
+			j = cand
+			return true
+		}
+		return false
+	}
+	live := func() bool { return budget > 0 && time.Now().Before(deadline) }
+	for changed := true; changed && live(); {
+		changed = false
+		for d := len(j.Sc.Gor) - 1; d >= 0 && len(j.Sc.Gor) > 1; d-- {
+			if d >= len(j.Sc.Gor) {
+				continue
+			}
+			if sc, sched := dropGoroutine(j.Sc, j.Sched, d); try(sc, sched) {
+				changed = true
+			}
+		}
+		for g := range j.Sc.Gor {
+			for len(j.Sc.Gor[g].Renders) > 1 {
+				cp := *j.Sc
+				cp.Gor = append([]probe.Goroutine{}, j.Sc.Gor...)
+				rs := cp.Gor[g].Renders
+				cp.Gor[g].Renders = append([]probe.Render{}, rs[:len(rs)-1]...)
+				if !try(&cp, j.Sched) {
+					break
+				}
+				changed = true
+			}
+			// an earlier render may be the one that is not needed
+			for ri := 0; ri < len(j.Sc.Gor[g].Renders)-1 && len(j.Sc.Gor[g].Renders) > 1; {
+				cp := *j.Sc
+				cp.Gor = append([]probe.Goroutine{}, j.Sc.Gor...)
+				rs := cp.Gor[g].Renders
+				cp.Gor[g].Renders = append(append([]probe.Render{}, rs[:ri]...), rs[ri+1:]...)
+				if try(&cp, j.Sched) {
+					changed = true
+				} else {
+					ri++
+				}
+			}
+			for ri := range j.Sc.Gor[g].Renders {
+				r := j.Sc.Gor[g].Renders[ri]
+				for _, plain := range []probe.Render{{C: r.C, Handler: r.Handler, Mw: r.Mw}, {C: r.C, Mw: r.Mw, Head: r.Head, Tail: r.Tail, Flush: r.Flush}, {C: r.C, Handler: r.Handler, Head: r.Head, Tail: r.Tail, Flush: r.Flush, Fresh: r.Fresh}} {
+					if plain == r {
+						continue
+					}
+					cp := *j.Sc
+					cp.Gor = append([]probe.Goroutine{}, j.Sc.Gor...)
+					cp.Gor[g].Renders = append([]probe.Render{}, j.Sc.Gor[g].Renders...)
+					cp.Gor[g].Renders[ri] = plain
+					if try(&cp, j.Sched) {
+						changed = true
+						break
+					}
+				}
+			}
+		}
+		for chunk := len(j.Sched) / 2; chunk >= 1; chunk /= 2 {
+			for at := 0; at+chunk <= len(j.Sched); {
+				ns := append(append([]int{}, j.Sched[:at]...), j.Sched[at+chunk:]...)
+				if try(j.Sc, ns) {
+					changed = true
+				} else {
+					at += chunk
+				}
+			}
+		}
+	}
+	// components no render reaches are emptied (the indices stay), then the reached ones lose the ops that are not needed
+	withComp := func(ci int, ops []probe.Op) *probe.Scenario {
+		cp := *j.Sc
+		cp.Comps = append([][]probe.Op{}, j.Sc.Comps...)
+		cp.Comps[ci] = ops
+		return &cp
+	}
+	reach := reachedComps(j.Sc)
+	cp := *j.Sc
+	cp.Comps = append([][]probe.Op{}, j.Sc.Comps...)
+	idle := false
+	for ci := range cp.Comps {
+		if !reach[ci] && len(cp.Comps[ci]) > 0 {
+			cp.Comps[ci], idle = []probe.Op{}, true
+		}
+	}
+	if idle {
+		try(&cp, j.Sched)
+	}
+	for ci := range j.Sc.Comps {
+		if !reach[ci] {
+			continue
+		}
+		for oi := len(j.Sc.Comps[ci]) - 1; oi >= 0 && live(); oi-- {
+			if oi >= len(j.Sc.Comps[ci]) {
+				continue
+			}
+			ops := j.Sc.Comps[ci]
+			try(withComp(ci, append(append([]probe.Op{}, ops[:oi]...), ops[oi+1:]...)), j.Sched)
+		}
+	}
+	return j
+}
+
+// reachedComps: the shared components some render of the scenario executes (directly or through a C op).
+func reachedComps(sc *probe.Scenario) map[int]bool {
+	reach := map[int]bool{}
+	var visit func(ci int)
+	var walk func(ops []probe.Op)
+	walk = func(ops []probe.Op) {
+		for _, op := range ops {
+			switch op.K {
+			case "C":
+				visit(op.I)
+			case "O":
+				walk(op.Body)
+			}
+		}
+	}
+	visit = func(ci int) {
+		if ci < 0 || ci >= len(sc.Comps) || reach[ci] {
+			return
+		}
+		reach[ci] = true
+		walk(sc.Comps[ci])
+	}
+	for _, g := range sc.Gor {
+		for _, r := range g.Renders {
+			visit(r.C)
+		}
+	}
+	return reach
+}
+
+// shrinkDeath: a smaller scenario whose process still ends the same way.
+func shrinkDeath(j job, d *death) (job, *death) {
+	best := d
+	limit := 60 * time.Second
+	if d.Hung {
+		limit = 2 * stallTime // a candidate that hangs again costs the stall time
+	}
+	small := shrinkJob(j, 200, limit, func(cand job) bool {
+		_, dd := runOne(cand, true)
+		if sameEnd(d, dd) {
+			best = dd
+			return true
+		}
+		return false
+	})
+	return small, best
+}
+
+// reportDeaths: a scenario whose process crashed or hung is a property failure (its renders did not come back with
+// their documents); the first one is shrunk. Returns how many there were.
+func reportDeaths(c *core.Ctx, family string, jobs []job, g guarded) int {
+	var idx []int
+	for k := range g.dead {
+		idx = append(idx, k)
+	}
+	sort.Ints(idx)
+	for n, k := range idx {
+		j, d, earlier := jobs[k], g.dead[k], g.earlier[k]
+		if n == 0 && len(earlier) == 0 {
+			j, d = shrinkDeath(j, d)
+		}
+		shape := "render-crashed"
+		if d.Hung {
+			shape = "render-hung"
+		}
+		in := jobInput(j, earlier)
+		if j.Sc != nil {
+			var progs []string
+			for gi, gr := range j.Sc.Gor {
+				progs = append(progs, fmt.Sprintf("goroutine %d -> %s: %s", gi, destNames[gr.Dest], short(actsString(compileGoroutine(j.Sc, gr, false)))))
+			}
+			in["programs"] = progs
+		}
+		failc(c, "property", family+": every render returns", shape, in, d.describe())
+		c.Hist(family + ": child process " + shape)
+	}
+	detail := fmt.Sprintf("%d scenarios, %d ended their process", len(jobs), len(idx))
+	if g.notRun > 0 {
+		detail += fmt.Sprintf(", %d not run after that", g.notRun)
+	}
+	if g.harness != "" {
+		detail += "; worker: " + g.harness
+	}
+	c.Oblige("correspondence", family+": every scenario ran to its end in its child process (no crash, deadlock or endless loop of the code under test)", len(idx) == 0 && g.notRun == 0 && g.harness == "", detail)
+	return len(idx)
 }
 
 // ---------- (a1) trace tie ----------
 func traceTie(c *core.Ctx) {
-	old := runtime.GOMAXPROCS(1)
-	gc := debug.SetGCPercent(-1)
-	defer func() { runtime.GOMAXPROCS(old); debug.SetGCPercent(gc) }()
 	n := c.N(300, 4000)
-	bad, badOwn, released, total := 0, 0, 0, 0
-	var reqs []drv.Req
-	type tcase struct {
-		sc *probe.Scenario
-		g  probe.Goroutine
-		tr traceRun
-	}
-	var cases []tcase
+	var jobs []job
 	for i := 0; i < n; i++ {
 		sc := genScenario(c.Rng, 1, 1+c.Rng.Intn(3), false, false)
-		g := sc.Gor[0]
 		// trace cases use the small components only, so that bufio never flushes by itself
-		for k := range g.Renders {
-			g.Renders[k].C = g.Renders[k].C % (len(sc.Comps) - 2)
+		rs := sc.Gor[0].Renders
+		for k := range rs {
+			rs[k].C = rs[k].C % (len(sc.Comps) - 2)
 		}
-		probe.Setup(sc)
-		tr := runTrace(sc, g, nil)
-		cases = append(cases, tcase{sc, g, tr})
-		reqs = append(reqs, modelReq("trace", sc, g, false), modelReq("alone", sc, g, false))
+		jobs = append(jobs, job{Kind: "trace", Sc: sc})
+	}
+	g := runGuarded(jobs, 256)
+	reportDeaths(c, "trace-of-one-render", jobs, g)
+	judgeTrace(c, jobs, g.res)
+}
+
+func judgeTrace(c *core.Ctx, jobs []job, results []*jobResult) {
+	bad, badOwn, released, total := 0, 0, 0, 0
+	var reqs []drv.Req
+	for _, j := range jobs {
+		reqs = append(reqs, modelReq("trace", j.Sc, j.Sc.Gor[0], false), modelReq("alone", j.Sc, j.Sc.Gor[0], false))
 	}
 	res := c.Model(reqs)
-	for i, tc := range cases {
+	for i, j := range jobs {
+		if results[i] == nil || results[i].Trace == nil {
+			continue
+		}
+		sc, g, tr := j.Sc, j.Sc.Gor[0], *results[i].Trace
 		total++
-		key := classify(tc.sc, tc.g)
-		c.Count(key)
+		c.Count(classify(sc, g))
+		prog := actsString(compileGoroutine(sc, g, false))
+		input := func() map[string]any {
+			in := jobInput(j, nil)
+			in["program"], in["cap"] = prog, g.Cap
+			return in
+		}
 		if i < 3 {
-			c.Sample(map[string]any{"family": "trace", "program": actsString(compileGoroutine(tc.sc, tc.g, false)), "cap": tc.g.Cap, "real_trace": tc.tr.records, "out": short(tc.tr.res.Out)})
+			c.Sample(map[string]any{"family": "trace", "program": prog, "cap": g.Cap, "real_trace": tr.Records, "out": short(tr.Res.Out)})
 		}
 		var mrec []string
 		if 2*i+1 < len(res) {
@@ -524,29 +746,28 @@ func traceTie(c *core.Ctx) {
 				mrec = append(mrec, string(r))
 			}
 		}
-		if strings.Join(mrec, " ") != strings.Join(tc.tr.records, " ") {
+		if strings.Join(mrec, " ") != strings.Join(tr.Records, " ") {
 			bad++
-			failc(c, "tie", "trace-of-one-render", "", map[string]any{"program": actsString(compileGoroutine(tc.sc, tc.g, false)), "cap": tc.g.Cap},
-				fmt.Sprintf("model trace %v, real trace %v", mrec, tc.tr.records))
+			failc(c, "tie", "trace-of-one-render", "", input(), fmt.Sprintf("model trace %v, real trace %v", mrec, tr.Records))
 		}
 		if 2*i+1 < len(res) && len(res[2*i+1]) >= 3 {
 			a := res[2*i+1]
-			if string(a[0]) != tc.tr.res.Out || string(a[2]) != strconv.Itoa(len(tc.tr.res.IDs)) || string(a[1]) != "1" || (len(a) >= 5 && string(a[4]) != marksString(tc.tr.res.Flushes)) {
+			if string(a[0]) != tr.Res.Out || string(a[2]) != strconv.Itoa(len(tr.Res.IDs)) || string(a[1]) != "1" || (len(a) >= 5 && string(a[4]) != marksString(tr.Res.Flushes)) {
 				bad++
-				failc(c, "tie", "output-of-one-render", "", map[string]any{"program": actsString(compileGoroutine(tc.sc, tc.g, false)), "cap": tc.g.Cap},
-					fmt.Sprintf("model out %q ids %s finished %s flusher calls at %s, real out %q ids %d flusher calls at %s", short(string(a[0])), a[2], a[1], a[4], short(tc.tr.res.Out), len(tc.tr.res.IDs), marksString(tc.tr.res.Flushes)))
+				failc(c, "tie", "output-of-one-render", "", input(),
+					fmt.Sprintf("model out %q ids %s finished %s flusher calls at %s, real out %q ids %d flusher calls at %s", short(string(a[0])), a[2], a[1], a[4], short(tr.Res.Out), len(tr.Res.IDs), marksString(tr.Res.Flushes)))
 			}
 		}
-		if tc.tr.inPool > 0 {
+		if tr.InPool > 0 {
 			badOwn++
-			failc(c, "property", "ownership", "buffer-in-pool-while-in-use", map[string]any{"program": actsString(compileGoroutine(tc.sc, tc.g, false)), "cap": tc.g.Cap},
-				fmt.Sprintf("the Buffer a render holds could be obtained from the pool %d times while the render was writing through it", tc.tr.inPool))
+			failc(c, "property", "ownership", "buffer-in-pool-while-in-use", input(),
+				fmt.Sprintf("the Buffer a render holds could be obtained from the pool %d times while the render was writing through it", tr.InPool))
 		}
-		released += tc.tr.released
+		released += tr.Released
 	}
-	c.Oblige("correspondence", "trace of one render (writer bytes, buffered bytes after each action) = model trace", bad == 0, fmt.Sprintf("%d renders-programs, %d differ", total, bad))
+	c.Oblige("correspondence", "trace of one render (writer bytes, buffered bytes after each action) = model trace", bad == 0 && total == len(jobs), fmt.Sprintf("%d renders-programs, %d differ", total, bad))
 	c.Oblige("correspondence", "a Buffer is never in the pool while the render that holds it writes or flushes (C14_ownership_inv on the real pool)", badOwn == 0, fmt.Sprintf("%d programs", total))
-	c.Oblige("side-condition", "released Buffers are seen back in the pool (the ownership observation is not vacuous)", released > total/2, fmt.Sprintf("%d sightings in %d programs", released, total))
+	c.Oblige("side-condition", "released Buffers are seen back in the pool (the ownership observation is not vacuous)", released > total/2 || c.Replay != "", fmt.Sprintf("%d sightings in %d programs", released, total))
 }
 
 func actsString(a [][]byte) string {
@@ -577,59 +798,129 @@ func classify(sc *probe.Scenario, g probe.Goroutine) string {
 }
 
 // ---------- (a2) planted stale buffers ----------
+
+// plantBytes: a used bytes.Buffer goes back to templ's bytes.Buffer pool.
+func plantBytes() {
+	bb := templ.GetBuffer()
+	bb.WriteString("STALE-RESPONSE-BYTES")
+	templ.ReleaseBuffer(bb)
+}
+
 func plantedTie(c *core.Ctx) {
-	old := runtime.GOMAXPROCS(1)
-	gc := debug.SetGCPercent(-1)
-	defer func() { runtime.GOMAXPROCS(old); debug.SetGCPercent(gc) }()
 	n := c.N(200, 3000)
-	reused, bad := 0, 0
+	var jobs []job
 	for i := 0; i < n; i++ {
-		sc := genScenario(c.Rng, 1, 1+c.Rng.Intn(2), false, false)
-		g := sc.Gor[0]
-		probe.Setup(sc)
-		ref := probe.RunGoroutine(g) // alone, before anything stale is planted
-		b, foreign := plantStale()
-		before := foreign.Buf.String()
-		nfl := len(foreign.Flushes)
-		nwr := len(foreign.Writes)
-		tr := runTrace(sc, g, b)
-		c.Count(classify(sc, g))
-		c.Hist("planted-stale-buffer")
-		if tr.reused {
-			reused++
-		}
-		if !sameResult(ref, tr.res) || foreign.Buf.String() != before || len(foreign.Flushes) != nfl || len(foreign.Writes) != nwr {
-			bad++
-			failc(c, "property", "repeat-after-stale-pooled-buffer", "stale-buffer-leaks", map[string]any{"program": actsString(compileGoroutine(sc, g, false)), "cap": g.Cap, "planted": "Buffer with unflushed bytes, sticky error, foreign Underlying"},
-				fmt.Sprintf("alone: %s; after a stale Buffer was pooled: %s; foreign writer %q -> %q (writes %d -> %d)", ref, tr.res, before, foreign.Buf.String(), nwr, len(foreign.Writes)))
-		}
+		jobs = append(jobs, job{Kind: "planted", Sc: genScenario(c.Rng, 1, 1+c.Rng.Intn(2), false, false)})
 	}
 	// the bytes.Buffer pool: a used buffer goes back, the next handler render must not see its bytes
-	badB := 0
 	for i := 0; i < n; i++ {
 		sc := genScenario(c.Rng, 1, 1, false, false)
-		g := sc.Gor[0]
-		g.Renders[0].Handler = true
-		probe.Setup(sc)
-		ref := probe.RunGoroutine(g)
-		bb := templ.GetBuffer()
-		bb.WriteString("STALE-RESPONSE-BYTES")
-		templ.ReleaseBuffer(bb)
-		got := probe.RunGoroutine(g)
+		sc.Gor[0].Renders[0].Handler = true
+		jobs = append(jobs, job{Kind: "pooled-bytes", Sc: sc})
+	}
+	g := runGuarded(jobs, 256)
+	reportDeaths(c, "planted-stale-buffers", jobs, g)
+	judgePlanted(c, jobs, g.res)
+}
+
+func judgePlanted(c *core.Ctx, jobs []job, results []*jobResult) {
+	reused, bad, badB, nP, nB, seenP, seenB := 0, 0, 0, 0, 0, 0, 0
+	for i, j := range jobs {
+		sc, g := j.Sc, j.Sc.Gor[0]
+		if j.Kind == "planted" {
+			nP++
+		} else {
+			nB++
+		}
+		r := results[i]
+		if r == nil || r.Ref == nil {
+			continue
+		}
 		c.Count(classify(sc, g))
-		c.Hist("planted-stale-bytes.Buffer")
-		if !sameResult(ref, got) {
-			badB++
-			failc(c, "property", "stale-pooled-bytes-buffer", "stale-buffer-leaks", map[string]any{"program": actsString(compileGoroutine(sc, g, false)), "cap": g.Cap},
-				fmt.Sprintf("alone: %s; after a used bytes.Buffer was released: %s", ref, got))
+		in := jobInput(j, nil)
+		in["program"], in["cap"] = actsString(compileGoroutine(sc, g, false)), g.Cap
+		switch {
+		case j.Kind == "planted" && r.Trace != nil && r.Foreign != nil:
+			seenP++
+			c.Hist("planted-stale-buffer")
+			tr, f := *r.Trace, *r.Foreign
+			if tr.Reused {
+				reused++
+			}
+			if !sameResult(*r.Ref, tr.Res) || f.Before != f.After || f.Flushes0 != f.Flushes1 || f.Writes0 != f.Writes1 {
+				bad++
+				in["planted"] = "Buffer with unflushed bytes, sticky error, foreign Underlying"
+				failc(c, "property", "repeat-after-stale-pooled-buffer", "stale-buffer-leaks", in,
+					fmt.Sprintf("alone: %s; after a stale Buffer was pooled: %s; foreign writer %q -> %q (writes %d -> %d)", *r.Ref, tr.Res, f.Before, f.After, f.Writes0, f.Writes1))
+			}
+		case j.Kind == "pooled-bytes" && r.Got != nil:
+			seenB++
+			c.Hist("planted-stale-bytes.Buffer")
+			if !sameResult(*r.Ref, *r.Got) {
+				badB++
+				failc(c, "property", "stale-pooled-bytes-buffer", "stale-buffer-leaks", in,
+					fmt.Sprintf("alone: %s; after a used bytes.Buffer was released: %s", *r.Ref, *r.Got))
+			}
 		}
 	}
-	c.Oblige("correspondence", "a render that is handed a stale pooled Buffer (bytes, sticky error, foreign writer) behaves as alone, and the foreign writer is untouched", bad == 0, fmt.Sprintf("%d programs, %d handed the planted Buffer", n, reused))
-	c.Oblige("side-condition", "the planted Buffer is the one the render receives (the stale-buffer observation is not vacuous)", reused > n/2, fmt.Sprintf("%d of %d", reused, n))
-	c.Oblige("correspondence", "a handler render after a used bytes.Buffer was released behaves as alone", badB == 0, fmt.Sprintf("%d programs", n))
+	c.Oblige("correspondence", "a render that is handed a stale pooled Buffer (bytes, sticky error, foreign writer) behaves as alone, and the foreign writer is untouched", bad == 0 && seenP == nP, fmt.Sprintf("%d programs, %d handed the planted Buffer", seenP, reused))
+	c.Oblige("side-condition", "the planted Buffer is the one the render receives (the stale-buffer observation is not vacuous)", reused > seenP/2 || c.Replay != "", fmt.Sprintf("%d of %d", reused, seenP))
+	c.Oblige("correspondence", "a handler render after a used bytes.Buffer was released behaves as alone", badB == 0 && seenB == nB, fmt.Sprintf("%d programs", seenB))
 }
 
 // ---------- (a3) the development-mode cache over file rewrites ----------
+
+type cacheEv struct {
+	K   string `json:"k"` // W rewrite file F as version V with modification time start+Off ms | D delete F | K look F up
+	F   int    `json:"f"`
+	Off int    `json:"off,omitempty"`
+	V   int    `json:"v,omitempty"`
+}
+
+type cacheJob struct {
+	Paths    []string  `json:"paths"`
+	Evs      []cacheEv `json:"events"`
+	Monotone bool      `json:"monotone"`
+}
+
+type cacheOut struct {
+	Real []string `json:"real"` // per lookup: "+lines" or "!"
+	At   []int    `json:"at"`   // per lookup: ms since the start of the case
+}
+
+func cacheLines(e cacheEv) []string {
+	return []string{fmt.Sprintf("v%d", e.V), fmt.Sprintf("file%d", e.F)}
+}
+
+// runCache performs the events of one case against the real cache (in a child).
+func runCache(cj *cacheJob) cacheOut {
+	var co cacheOut
+	for _, p := range cj.Paths {
+		os.MkdirAll(filepath.Dir(p), 0o755)
+	}
+	start := time.Now()
+	for i, e := range cj.Evs {
+		note("event %d: %s file %d", i, e.K, e.F)
+		switch e.K {
+		case "W":
+			os.WriteFile(cj.Paths[e.F], []byte(strings.Join(cacheLines(e), "\n")+"\n"), 0o644)
+			mt := start.Add(time.Duration(e.Off) * time.Millisecond)
+			os.Chtimes(cj.Paths[e.F], mt, mt)
+		case "D":
+			os.Remove(cj.Paths[e.F])
+		case "K":
+			ls, err := templruntime.VerifC14WatchedStrings(cj.Paths[e.F])
+			if err != nil {
+				co.Real = append(co.Real, "!")
+			} else {
+				co.Real = append(co.Real, "+"+strings.Join(ls, "\n")+"\n")
+			}
+			co.At = append(co.At, int(time.Since(start).Milliseconds()))
+		}
+	}
+	return co
+}
+
 func cacheTie(c *core.Ctx) {
 	dir, err := os.MkdirTemp("", "c14cache")
 	if err != nil {
@@ -638,77 +929,102 @@ func cacheTie(c *core.Ctx) {
 	}
 	defer os.RemoveAll(dir)
 	n := c.N(60, 600)
-	bad, badFresh := 0, 0
-	const t0 = 10000000 // model clock origin, ms
-	var reqs []drv.Req
-	var reals [][]string
-	var descs [][]string
+	var jobs []job
 	for i := 0; i < n; i++ {
 		// two files per case, fresh names (the cache is process-wide)
-		paths := []string{filepath.Join(dir, fmt.Sprintf("f%d_a.txt", i)), filepath.Join(dir, fmt.Sprintf("f%d_b.txt", i))}
-		start := time.Now()
-		var evs [][]byte
-		var real []string
-		var desc []string
+		cj := &cacheJob{Paths: []string{filepath.Join(dir, fmt.Sprintf("f%d_a.txt", i)), filepath.Join(dir, fmt.Sprintf("f%d_b.txt", i))}}
 		version := 0
 		// even cases: every modification time lies well in the past and increases with every rewrite; then
 		// C14_cache_refresh (and a plain load) demand that every lookup returns the file as it is now
-		monotone := i%2 == 0
-		cur := []string{"", ""}
+		cj.Monotone = i%2 == 0
 		for k := 0; k < 3+c.Rng.Intn(10); k++ {
 			f := c.Rng.Intn(2)
 			switch c.Rng.Intn(5) {
 			case 0, 1: // rewrite with a modification time far from every boundary: 20 s, 10 s or 5 s ago, or 30 s ahead
 				version++
 				off := []int{-20000, -10000, -5000, -19000, -9000, 30000}[c.Rng.Intn(6)]
-				if monotone {
+				if cj.Monotone {
 					off = -60000 + 1000*version
 				}
-				lines := []string{fmt.Sprintf("v%d", version), fmt.Sprintf("file%d", f)}
-				content := strings.Join(lines, "\n") + "\n"
-				os.WriteFile(paths[f], []byte(content), 0o644)
-				mt := start.Add(time.Duration(off) * time.Millisecond)
-				os.Chtimes(paths[f], mt, mt)
-				cur[f] = "+" + content + "\n" // strings.Split keeps the empty line after the final newline
-				evs = append(evs, []byte(fmt.Sprintf("W%d,%d,%s,%s,", f, t0+off, lines[0], lines[1])))
-				desc = append(desc, fmt.Sprintf("write f%d mtime%+dms v%d", f, off, version))
+				cj.Evs = append(cj.Evs, cacheEv{K: "W", F: f, Off: off, V: version})
 			case 2:
 				if c.Rng.Intn(3) == 0 {
-					os.Remove(paths[f])
-					cur[f] = ""
-					evs = append(evs, []byte(fmt.Sprintf("D%d", f)))
-					desc = append(desc, fmt.Sprintf("delete f%d", f))
+					cj.Evs = append(cj.Evs, cacheEv{K: "D", F: f})
 				}
 			default:
-				ls, err := templruntime.VerifC14WatchedStrings(paths[f])
-				if err != nil {
-					real = append(real, "!")
-				} else {
-					real = append(real, "+"+strings.Join(ls, "\n")+"\n")
+				cj.Evs = append(cj.Evs, cacheEv{K: "K", F: f})
+			}
+		}
+		jobs = append(jobs, job{Kind: "cache", Cache: cj})
+	}
+	g := runGuarded(jobs, 64)
+	reportDeaths(c, "dev-cache", jobs, g)
+	judgeCache(c, jobs, g.res)
+}
+
+func judgeCache(c *core.Ctx, jobs []job, results []*jobResult) {
+	const t0 = 10000000 // model clock origin, ms
+	bad, badFresh, seen, mono := 0, 0, 0, 0
+	var reqs []drv.Req
+	var reals, descs [][]string
+	for i, j := range jobs {
+		cj := j.Cache
+		var co cacheOut
+		if results[i] != nil && results[i].Cache != nil {
+			co = *results[i].Cache
+			seen++
+		}
+		var evs [][]byte
+		var desc []string
+		cur := []string{"", ""}
+		look := 0
+		for _, e := range cj.Evs {
+			switch e.K {
+			case "W":
+				lines := cacheLines(e)
+				cur[e.F] = "+" + strings.Join(lines, "\n") + "\n" + "\n" // strings.Split keeps the empty line after the final newline
+				evs = append(evs, []byte(fmt.Sprintf("W%d,%d,%s,%s,", e.F, t0+e.Off, lines[0], lines[1])))
+				desc = append(desc, fmt.Sprintf("write f%d mtime%+dms v%d", e.F, e.Off, e.V))
+			case "D":
+				cur[e.F] = ""
+				evs = append(evs, []byte(fmt.Sprintf("D%d", e.F)))
+				desc = append(desc, fmt.Sprintf("delete f%d", e.F))
+			case "K":
+				desc = append(desc, fmt.Sprintf("lookup f%d", e.F))
+				if look >= len(co.Real) || look >= len(co.At) {
+					continue
 				}
-				evs = append(evs, []byte(fmt.Sprintf("K%d,%d", f, t0+int(time.Since(start).Milliseconds()))))
-				desc = append(desc, fmt.Sprintf("lookup f%d", f))
-				if monotone {
-					want := cur[f]
+				evs = append(evs, []byte(fmt.Sprintf("K%d,%d", e.F, t0+co.At[look])))
+				if cj.Monotone {
+					want := cur[e.F]
 					if want == "" {
 						want = "!"
 					}
-					if got := real[len(real)-1]; got != want {
+					if got := co.Real[look]; got != want {
 						badFresh++
-						failc(c, "property", "dev-cache-refresh", "stale-lines-after-rewrite", map[string]any{"events": append([]string{}, desc...)},
+						in := jobInput(j, nil)
+						in["events"] = append([]string{}, desc...)
+						failc(c, "property", "dev-cache-refresh", "stale-lines-after-rewrite", in,
 							fmt.Sprintf("the file now holds %q (every rewrite had a later modification time, all more than 40 s in the past) but the lookup returned %q", want, got))
 					}
 				}
+				look++
 			}
+		}
+		if cj.Monotone {
+			mono++
 		}
 		c.Count(strings.Join(desc, ";"))
 		c.Hist("cache-event-sequence")
 		reqs = append(reqs, drv.Req{Fn: "cache", Args: evs})
-		reals = append(reals, real)
+		reals = append(reals, co.Real)
 		descs = append(descs, desc)
 	}
 	res := c.Model(reqs)
 	for i := range reals {
+		if results[i] == nil {
+			continue
+		}
 		var m []string
 		if i < len(res) {
 			for _, r := range res[i] {
@@ -717,11 +1033,13 @@ func cacheTie(c *core.Ctx) {
 		}
 		if strings.Join(m, "|") != strings.Join(reals[i], "|") {
 			bad++
-			failc(c, "tie", "dev-cache-sequence", "", map[string]any{"events": descs[i]}, fmt.Sprintf("model %q real %q", m, reals[i]))
+			in := jobInput(jobs[i], nil)
+			in["events"] = descs[i]
+			failc(c, "tie", "dev-cache-sequence", "", in, fmt.Sprintf("model %q real %q", m, reals[i]))
 		}
 	}
-	c.Oblige("correspondence", "a lookup after rewrites with later, past modification times returns the file as it is now (C14_cache_refresh on the binary)", badFresh == 0, fmt.Sprintf("%d event sequences", (n+1)/2))
-	c.Oblige("correspondence", "getWatchedStrings over file rewrites, deletions and lookups = model cache_lookup", bad == 0, fmt.Sprintf("%d event sequences, %d differ", n, bad))
+	c.Oblige("correspondence", "a lookup after rewrites with later, past modification times returns the file as it is now (C14_cache_refresh on the binary)", badFresh == 0, fmt.Sprintf("%d event sequences", mono))
+	c.Oblige("correspondence", "getWatchedStrings over file rewrites, deletions and lookups = model cache_lookup", bad == 0 && seen == len(jobs), fmt.Sprintf("%d event sequences, %d differ", seen, bad))
 }
 
 // ---------- (a4) interleaved on an explicit schedule ----------
@@ -770,22 +1088,24 @@ func genSchedule(r *rng.R, n int) ([]int, string) {
 }
 
 type ilOutcome struct {
-	refs, got  []probe.Result
-	frame      string // first move that changed another goroutine's destination
-	overlap    bool   // two requests were past the middleware before the first of them had rendered
-	freshToBig int    // renders into a goroutine's own big bufio.Writer that were served by a newly constructed pool entry
-	moves      int
-	freshBufs  int64
+	Refs       []probe.Result `json:"refs"`
+	Got        []probe.Result `json:"got"`
+	Frame      string         `json:"frame"`        // first move that changed another goroutine's destination
+	Overlap    bool           `json:"overlap"`      // two requests were past the middleware before the first of them had rendered
+	FreshToBig int            `json:"fresh_to_big"` // renders into a goroutine's own big bufio.Writer that were served by a newly constructed pool entry
+	Moves      int            `json:"moves"`
+	FreshBufs  int64          `json:"fresh_bufs"`
 }
 
-// runInterleaved: every goroutine alone first (the reference), then all of them on the schedule, starting like a new
-// process: an empty pool and a new middleware instance.
+// runInterleaved (in a child): every goroutine alone first (the reference), then all of them on the schedule, starting
+// like a new process: an empty pool and a new middleware instance.
 func runInterleaved(sc *probe.Scenario, sched []int) ilOutcome {
 	var o ilOutcome
 	probe.Setup(sc)
-	for _, g := range sc.Gor {
+	for gi, g := range sc.Gor {
 		emptyPool()
-		o.refs = append(o.refs, probe.RunGoroutine(g))
+		note("goroutine %d alone (the reference)", gi)
+		o.Refs = append(o.Refs, probe.RunGoroutine(g))
 	}
 	probe.Mw = probe.NewMw(sc)
 	emptyPool()
@@ -800,18 +1120,27 @@ func runInterleaved(sc *probe.Scenario, sched []int) ilOutcome {
 		}
 		now := atomic.LoadInt64(&probe.FreshBuffers)
 		if now > lastFresh && probe.Moving >= 0 && probe.Moving < n && sc.Gor[probe.Moving].Dest == probe.DestBufioBig {
-			o.freshToBig++
+			o.FreshToBig++
 		}
 		lastFresh = now
 	}
-	defer func() { probe.Hook = nil }()
-	o.got = probe.Interleaved(sc, sched, func(v probe.Visit, cl []*probe.Client) {
-		o.moves++
+	lastStop := make([]string, n)
+	probe.BeforeMove = func(who int) {
+		after := "its start"
+		if lastStop[who] != "" {
+			after = fmt.Sprintf("%q", lastStop[who])
+		}
+		note("all goroutines interleaved, move %d: goroutine %d goes on from %s", o.Moves+1, who, after)
+	}
+	defer func() { probe.Hook, probe.BeforeMove = nil, nil }()
+	o.Got = probe.Interleaved(sc, sched, func(v probe.Visit, cl []*probe.Client) {
+		o.Moves++
+		lastStop[v.Who] = v.Where
 		lastFresh = atomic.LoadInt64(&probe.FreshBuffers)
 		for d := range cl {
 			now := cl[d].Snapshot()
-			if !first && d != v.Who && now != snap[d] && o.frame == "" {
-				o.frame = fmt.Sprintf("move %d (goroutine %d, up to %q) changed the destination of goroutine %d: bytes received/Write calls/Flusher calls/held by its own bufio.Writer/held by its own templ Buffer %v -> %v", o.moves, v.Who, v.Where, d, snap[d], now)
+			if !first && d != v.Who && now != snap[d] && o.Frame == "" {
+				o.Frame = fmt.Sprintf("move %d (goroutine %d, up to %q) changed the destination of goroutine %d: bytes received/Write calls/Flusher calls/held by its own bufio.Writer/held by its own templ Buffer %v -> %v", o.Moves, v.Who, v.Where, d, snap[d], now)
 			}
 			snap[d] = now
 		}
@@ -820,7 +1149,7 @@ func runInterleaved(sc *probe.Scenario, sched []int) ilOutcome {
 		case "past-middleware":
 			for d := range pastMw {
 				if d != v.Who && pastMw[d] {
-					o.overlap = true
+					o.Overlap = true
 				}
 			}
 			pastMw[v.Who] = true
@@ -828,7 +1157,7 @@ func runInterleaved(sc *probe.Scenario, sched []int) ilOutcome {
 			pastMw[v.Who] = false
 		}
 	})
-	o.freshBufs = atomic.LoadInt64(&probe.FreshBuffers)
+	o.FreshBufs = atomic.LoadInt64(&probe.FreshBuffers)
 	return o
 }
 
@@ -869,11 +1198,14 @@ func diffAt(a, b string) string {
 
 // failsInterleaved: the implementation-only part of the judgement (used while shrinking).
 func failsInterleaved(o ilOutcome) bool {
-	if o.frame != "" {
+	if o.Frame != "" {
 		return true
 	}
-	for i := range o.got {
-		if !sameResult(o.got[i], o.refs[i]) {
+	if len(o.Got) != len(o.Refs) {
+		return true
+	}
+	for i := range o.Got {
+		if !sameResult(o.Got[i], o.Refs[i]) {
 			return true
 		}
 	}
@@ -896,67 +1228,18 @@ func dropGoroutine(sc *probe.Scenario, sched []int, d int) (*probe.Scenario, []i
 	return &cp, ns
 }
 
-// shrinkInterleaved looks for a smaller failing scenario: fewer goroutines, fewer renders, plainer renders, a shorter schedule.
+// shrinkInterleaved looks for a smaller scenario that still differs from alone (each candidate in a child of its own; a
+// candidate that kills its child is not taken: the failure reported stays of the kind that was observed).
 func shrinkInterleaved(tc ilCase) ilCase {
-	budget := 400
-	try := func(sc *probe.Scenario, sched []int) bool {
-		if budget <= 0 {
-			return false
-		}
-		budget--
-		o := runInterleaved(sc, sched)
-		if failsInterleaved(o) {
-			tc = ilCase{sc, sched, strings.TrimSuffix(tc.mode, " (shrunk)") + " (shrunk)", o}
+	j := shrinkJob(job{Kind: "interleaved", Sc: tc.sc, Sched: tc.sched, Mode: tc.mode}, 400, 90*time.Second, func(cand job) bool {
+		r, d := runOne(cand, false)
+		if d == nil && r.IL != nil && failsInterleaved(*r.IL) {
+			tc.out = *r.IL
 			return true
 		}
 		return false
-	}
-	for changed := true; changed && budget > 0; {
-		changed = false
-		for d := len(tc.sc.Gor) - 1; d >= 0 && len(tc.sc.Gor) > 1; d-- {
-			if sc, sched := dropGoroutine(tc.sc, tc.sched, d); try(sc, sched) {
-				changed = true
-			}
-		}
-		for g := range tc.sc.Gor {
-			for len(tc.sc.Gor[g].Renders) > 1 {
-				cp := *tc.sc
-				cp.Gor = append([]probe.Goroutine{}, tc.sc.Gor...)
-				rs := cp.Gor[g].Renders
-				cp.Gor[g].Renders = append([]probe.Render{}, rs[:len(rs)-1]...)
-				if !try(&cp, tc.sched) {
-					break
-				}
-				changed = true
-			}
-			for ri := range tc.sc.Gor[g].Renders {
-				r := tc.sc.Gor[g].Renders[ri]
-				for _, plain := range []probe.Render{{C: r.C, Handler: r.Handler, Mw: r.Mw}, {C: r.C, Mw: r.Mw, Head: r.Head, Tail: r.Tail, Flush: r.Flush}} {
-					if plain == r {
-						continue
-					}
-					cp := *tc.sc
-					cp.Gor = append([]probe.Goroutine{}, tc.sc.Gor...)
-					cp.Gor[g].Renders = append([]probe.Render{}, tc.sc.Gor[g].Renders...)
-					cp.Gor[g].Renders[ri] = plain
-					if try(&cp, tc.sched) {
-						changed = true
-						break
-					}
-				}
-			}
-		}
-		for chunk := len(tc.sched) / 2; chunk >= 1; chunk /= 2 {
-			for at := 0; at+chunk <= len(tc.sched); {
-				ns := append(append([]int{}, tc.sched[:at]...), tc.sched[at+chunk:]...)
-				if try(tc.sc, ns) {
-					changed = true
-				} else {
-					at += chunk
-				}
-			}
-		}
-	}
+	})
+	tc.sc, tc.sched, tc.mode = j.Sc, j.Sched, j.Mode
 	return tc
 }
 
@@ -979,7 +1262,10 @@ func judgeInterleaved(c *core.Ctx, cases []ilCase, family string) (badProp, badT
 	for ci, tc := range cases {
 		tc := tc
 		input := func(gi int) map[string]any {
-			in := map[string]any{"scenario": tc.sc, "schedule": tc.sched, "schedule_kind": tc.mode, "how": "vcheck C14 --replay <this file> runs the scenario on the schedule again"}
+			in := jobInput(job{Kind: "interleaved", Sc: tc.sc, Sched: tc.sched, Mode: tc.mode}, nil)
+			if tc.sched == nil {
+				in["schedule"] = []int{}
+			}
 			if gi >= 0 {
 				g := tc.sc.Gor[gi]
 				in["goroutine"] = gi
@@ -988,9 +1274,9 @@ func judgeInterleaved(c *core.Ctx, cases []ilCase, family string) (badProp, badT
 			}
 			return in
 		}
-		if tc.out.frame != "" {
+		if tc.out.Frame != "" {
 			badFrame++
-			failc(c, "property", family+": other goroutines' destinations untouched", "another-goroutines-destination-touched", input(-1), tc.out.frame)
+			failc(c, "property", family+": other goroutines' destinations untouched", "another-goroutines-destination-touched", input(-1), tc.out.Frame)
 		}
 		seen := map[int64]int{}
 		for gi, g := range tc.sc.Gor {
@@ -1001,9 +1287,13 @@ func judgeInterleaved(c *core.Ctx, cases []ilCase, family string) (badProp, badT
 			k++
 			c.Count(classify(tc.sc, g))
 			c.Hist("interleaved: destination " + destNames[g.Dest])
-			ref, got := tc.out.refs[gi], tc.out.got[gi]
+			if gi >= len(tc.out.Refs) || gi >= len(tc.out.Got) {
+				badProp++
+				continue
+			}
+			ref, got := tc.out.Refs[gi], tc.out.Got[gi]
 			if ci < 2 && gi == 0 {
-				c.Sample(map[string]any{"family": family, "program": short(actsString(compileGoroutine(tc.sc, g, false))), "destination": destNames[g.Dest], "schedule": tc.mode, "moves": tc.out.moves, "out": short(got.Out)})
+				c.Sample(map[string]any{"family": family, "program": short(actsString(compileGoroutine(tc.sc, g, false))), "destination": destNames[g.Dest], "schedule": tc.mode, "moves": tc.out.Moves, "out": short(got.Out)})
 			}
 			refOK := modelAgrees(a, g, ref)
 			if !refOK {
@@ -1032,32 +1322,36 @@ func judgeInterleaved(c *core.Ctx, cases []ilCase, family string) (badProp, badT
 }
 
 func interleavedTie(c *core.Ctx) {
-	old := runtime.GOMAXPROCS(1)
-	gc := debug.SetGCPercent(-1)
-	defer func() { runtime.GOMAXPROCS(old); debug.SetGCPercent(gc); runtime.GC() }()
 	t0 := time.Now()
 	n := c.N(700, 6000)
-	var cases []ilCase
-	overlaps, freshToBig, moves := 0, 0, 0
+	var jobs []job
 	for i := 0; i < n; i++ {
 		nG := 2 + c.Rng.Intn(3)
 		sc := genScenario(c.Rng, nG, 1+c.Rng.Intn(3), false, true)
 		sched, mode := genSchedule(c.Rng, nG)
-		out := runInterleaved(sc, sched)
-		cases = append(cases, ilCase{sc, sched, mode, out})
+		jobs = append(jobs, job{Kind: "interleaved", Sc: sc, Sched: sched, Mode: mode})
 		c.Hist("interleaved: schedule " + mode)
-		if out.overlap {
+	}
+	g := runGuarded(jobs, 128)
+	reportDeaths(c, "interleaved", jobs, g)
+	var cases []ilCase
+	overlaps, freshToBig, moves := 0, 0, 0
+	for i, j := range jobs {
+		r := g.res[i]
+		if r == nil || r.IL == nil {
+			continue
+		}
+		cases = append(cases, ilCase{j.Sc, j.Sched, j.Mode, *r.IL})
+		if r.IL.Overlap {
 			overlaps++
 		}
-		freshToBig += out.freshToBig
-		moves += out.moves
-		if i%64 == 63 {
-			runtime.GC()
-		}
+		freshToBig += r.IL.FreshToBig
+		moves += r.IL.Moves
 	}
+	ran := len(cases)
 	for _, tc := range cases {
 		if failsInterleaved(tc.out) {
-			// the first failing scenario, shrunk, is reported first
+			// the first scenario that differs from alone, shrunk, is reported first
 			cases = append([]ilCase{shrinkInterleaved(tc)}, cases...)
 			break
 		}
@@ -1066,22 +1360,28 @@ func interleavedTie(c *core.Ctx) {
 	c.Extra["interleaved_cases"] = n
 	c.Extra["interleaved_moves"] = moves
 	c.Extra["interleaved_s"] = time.Since(t0).Seconds()
-	c.Oblige("correspondence", "interleaved: every move leaves the other goroutines' destinations (bytes received, calls, bytes held by their own bufio.Writer / templ Buffer) untouched (C14_others_untouched on the binary)", badFrame == 0, fmt.Sprintf("%d scenarios, %d moves", n, moves))
-	c.Oblige("correspondence", "interleaved: each goroutine's bytes, flushes and errors = the goroutine alone = the specification's stand-alone run (C14_isolation on the binary)", badProp == 0, fmt.Sprintf("%d scenarios, %d goroutines differ", n, badProp))
+	c.Oblige("correspondence", "interleaved: every move leaves the other goroutines' destinations (bytes received, calls, bytes held by their own bufio.Writer / templ Buffer) untouched (C14_others_untouched on the binary)", badFrame == 0 && ran == n, fmt.Sprintf("%d scenarios, %d moves", ran, moves))
+	c.Oblige("correspondence", "interleaved: each goroutine's bytes, flushes and errors = the goroutine alone = the specification's stand-alone run (C14_isolation on the binary)", badProp == 0 && ran == n, fmt.Sprintf("%d scenarios, %d goroutines differ", ran, badProp))
 	c.Oblige("correspondence", "interleaved: model stand-alone output = each goroutine alone", badTie == 0, fmt.Sprintf("%d differ", badTie))
 	c.Oblige("correspondence", "interleaved: once-handle ids distinct across goroutines", badIDs == 0, "")
-	c.Oblige("side-condition", "interleaved: two requests were past the same middleware instance before the first of them rendered (the shared-registry observation is not vacuous)", overlaps > n/40, fmt.Sprintf("%d of %d scenarios", overlaps, n))
-	c.Oblige("side-condition", "interleaved: renders into a goroutine's own bufio.Writer >= templ's buffer were served by newly constructed pool entries (the adopted-writer observation is not vacuous)", freshToBig > n/40, fmt.Sprintf("%d renders in %d scenarios", freshToBig, n))
+	c.Oblige("side-condition", "interleaved: two requests were past the same middleware instance before the first of them rendered (the shared-registry observation is not vacuous)", overlaps > n/40, fmt.Sprintf("%d of %d scenarios", overlaps, ran))
+	c.Oblige("side-condition", "interleaved: renders into a goroutine's own bufio.Writer >= templ's buffer were served by newly constructed pool entries (the adopted-writer observation is not vacuous)", freshToBig > n/40, fmt.Sprintf("%d renders in %d scenarios", freshToBig, ran))
 }
 
-// replayInterleaved: vcheck C14 --replay <file>: the interleaved scenarios of the file's failures, again.
-func replayInterleaved(c *core.Ctx) {
+// ---------- --replay ----------
+
+// replay: vcheck C14 --replay <file>: the scenario of every failure in the file again, each in a process of its own.
+func replay(c *core.Ctx) {
 	var doc struct {
 		Failures []struct {
 			Input struct {
+				Kind     string          `json:"kind"`
 				Scenario *probe.Scenario `json:"scenario"`
 				Schedule []int           `json:"schedule"`
-				Kind     string          `json:"schedule_kind"`
+				Mode     string          `json:"schedule_kind"`
+				Cache    *cacheJob       `json:"cache"`
+				Earlier  []job           `json:"earlier"`
+				Dev      bool            `json:"dev"`
 			} `json:"input"`
 		} `json:"failures"`
 	}
@@ -1090,18 +1390,133 @@ func replayInterleaved(c *core.Ctx) {
 		c.Oblige("correspondence", "replay file readable", false, fmt.Sprint(err))
 		return
 	}
-	old := runtime.GOMAXPROCS(1)
-	gc := debug.SetGCPercent(-1)
-	defer func() { runtime.GOMAXPROCS(old); debug.SetGCPercent(gc) }()
-	var cases []ilCase
+	dir, err := os.MkdirTemp("", "c14replay")
+	if err != nil {
+		c.Oblige("correspondence", "replay scratch directory", false, err.Error())
+		return
+	}
+	defer os.RemoveAll(dir)
+	byKind := map[string][]job{}
+	res := map[string][]*jobResult{}
+	dead := map[string]guarded{}
+	var conc [2][]*probe.Scenario
+	again := map[string]bool{} // several failures may name the same scenario
 	for _, f := range doc.Failures {
-		if f.Input.Scenario == nil {
+		in := f.Input
+		kind := in.Kind
+		if kind == "" && in.Scenario != nil {
+			kind = "interleaved"
+		}
+		j := job{Kind: kind, Sc: in.Scenario, Sched: in.Schedule, Mode: in.Mode, Cache: in.Cache}
+		id, _ := json.Marshal([]any{j, in.Earlier, in.Dev})
+		if again[string(id)] {
 			continue
 		}
-		cases = append(cases, ilCase{f.Input.Scenario, f.Input.Schedule, f.Input.Kind, runInterleaved(f.Input.Scenario, f.Input.Schedule)})
+		again[string(id)] = true
+		switch kind {
+		case "concurrent":
+			if in.Scenario != nil {
+				k := 0
+				if in.Dev {
+					k = 1
+				}
+				conc[k] = append(conc[k], in.Scenario)
+			}
+			continue
+		case "cache":
+			if j.Cache == nil {
+				continue
+			}
+			cp := *j.Cache
+			cp.Paths = nil
+			for i, p := range j.Cache.Paths {
+				cp.Paths = append(cp.Paths, filepath.Join(dir, fmt.Sprintf("%d_%d_%s", len(byKind[kind]), i, filepath.Base(p))))
+			}
+			j.Cache = &cp
+		case "trace", "planted", "pooled-bytes", "interleaved":
+			if j.Sc == nil {
+				continue
+			}
+		default:
+			continue
+		}
+		fam := kind
+		if kind == "pooled-bytes" {
+			fam = "planted"
+		}
+		out, d := runChild(append(append([]job{}, in.Earlier...), j), len(in.Earlier) == 0)
+		g, ok := dead[fam]
+		if !ok {
+			g = guarded{dead: map[int]*death{}, earlier: map[int][]job{}}
+		}
+		idx := len(byKind[fam])
+		byKind[fam] = append(byKind[fam], j)
+		var r *jobResult
+		if d == nil {
+			r = &out[len(out)-1]
+		} else {
+			g.dead[idx], g.earlier[idx] = d, in.Earlier
+		}
+		res[fam] = append(res[fam], r)
+		dead[fam] = g
 	}
-	badProp, badTie, badFrame, badIDs := judgeInterleaved(c, cases, "interleaved")
-	c.Oblige("correspondence", "replayed interleaved scenarios behave as alone", badProp+badTie+badFrame+badIDs == 0, fmt.Sprintf("%d scenarios replayed", len(cases)))
+	total := 0
+	for _, fam := range []string{"trace", "planted", "cache", "interleaved"} {
+		jobs := byKind[fam]
+		if len(jobs) == 0 {
+			continue
+		}
+		total += len(jobs)
+		g := dead[fam]
+		g.res = res[fam]
+		name := map[string]string{"trace": "trace-of-one-render", "planted": "planted-stale-buffers", "cache": "dev-cache", "interleaved": "interleaved"}[fam]
+		// no shrinking on replay: the scenario in the file is what is run
+		for k := range jobs {
+			d := g.dead[k]
+			if d == nil {
+				continue
+			}
+			shape := "render-crashed"
+			if d.Hung {
+				shape = "render-hung"
+			}
+			failc(c, "property", name+": every render returns", shape, jobInput(jobs[k], g.earlier[k]), d.describe())
+		}
+		c.Oblige("correspondence", name+": every replayed scenario ran to its end in its child process", len(g.dead) == 0, fmt.Sprintf("%d scenarios, %d ended their process", len(jobs), len(g.dead)))
+		switch fam {
+		case "trace":
+			judgeTrace(c, jobs, g.res)
+		case "planted":
+			judgePlanted(c, jobs, g.res)
+		case "cache":
+			judgeCache(c, jobs, g.res)
+		case "interleaved":
+			var cases []ilCase
+			for i, j := range jobs {
+				if r := g.res[i]; r != nil && r.IL != nil {
+					cases = append(cases, ilCase{j.Sc, j.Sched, j.Mode, *r.IL})
+				}
+			}
+			badProp, badTie, badFrame, badIDs := judgeInterleaved(c, cases, "interleaved")
+			c.Oblige("correspondence", "replayed interleaved scenarios behave as alone", badProp+badTie+badFrame+badIDs == 0, fmt.Sprintf("%d scenarios replayed", len(cases)))
+		}
+	}
+	if len(conc[0])+len(conc[1]) > 0 {
+		bin, err := buildRace(c)
+		if err != nil {
+			c.Oblige("correspondence", "the probe program builds with -race against the working tree", false, err.Error())
+		} else {
+			var t raceTally
+			for k, dev := range []bool{false, true} {
+				for _, sc := range conc[k] {
+					total++
+					raceBatch(c, bin, []*probe.Scenario{sc}, dev, 0, &t)
+				}
+			}
+			t.oblige(c)
+		}
+	}
+	c.Oblige("correspondence", "the replay file holds scenarios to run", total > 0, fmt.Sprintf("%d scenarios", total))
 }
 
 // ---------- (b) the -race subprocess ----------
@@ -1140,36 +1555,283 @@ func buildRace(c *core.Ctx) (string, error) {
 	return bin, nil
 }
 
-func runRace(bin string, scs []*probe.Scenario, dev bool) ([]raceOut, string, int, error) {
+// raceStall: the -race probe writes a line per finished scenario (N goroutines x M renders, alone and then at once).
+var raceStall = 60 * time.Second
+
+// runRace runs the scenarios in ONE -race process: the results of those it finished, its stderr, and how it ended if
+// it did not finish them all (death.Done is the scenario that was in progress).
+func runRace(bin string, scs []*probe.Scenario, dev bool) ([]raceOut, string, int, *death, error) {
 	in, _ := json.Marshal(scs)
 	cmd := exec.Command(bin)
-	cmd.Stdin = bytes.NewReader(in)
-	var stdout, stderr bytes.Buffer
-	cmd.Stdout, cmd.Stderr = &stdout, &stderr
 	env := []string{"PATH=" + os.Getenv("PATH"), "HOME=" + os.Getenv("HOME"), "GORACE=exitcode=66 history_size=2"}
-	var root string
 	if dev {
-		var err error
-		root, err = os.MkdirTemp("", "c14dev")
+		root, err := os.MkdirTemp("", "c14dev")
 		if err != nil {
-			return nil, "", 0, err
+			return nil, "", 0, nil, err
 		}
 		defer os.RemoveAll(root)
 		env = append(env, "TEMPL_DEV_MODE=true", "TEMPL_DEV_MODE_ROOT="+root)
 	}
 	cmd.Env = env
-	err := cmd.Run()
-	code := 0
-	if ee, ok := err.(*exec.ExitError); ok {
-		code = ee.ExitCode()
-	} else if err != nil {
-		return nil, stderr.String(), -1, err
-	}
 	var outs []raceOut
-	if jerr := json.Unmarshal(stdout.Bytes(), &outs); jerr != nil {
-		return nil, stderr.String(), code, nil
+	garbled := false
+	stderr, status, code, hung, err := runProc(cmd, in, raceStall, func(b []byte) {
+		var o raceOut
+		if garbled || json.Unmarshal(b, &o) != nil {
+			garbled = true
+			return
+		}
+		outs = append(outs, o)
+	})
+	if err != nil {
+		return nil, stderr, -1, nil, err
 	}
-	return outs, stderr.String(), code, nil
+	if len(outs) > len(scs) {
+		outs = outs[:len(scs)]
+	}
+	if !hung && len(outs) == len(scs) && (code == 0 || code == 66) {
+		return outs, stderr, code, nil, nil
+	}
+	if len(outs) == len(scs) {
+		outs = outs[:len(scs)-1]
+	}
+	return outs, stderr, code, &death{Done: len(outs), Status: status, Hung: hung, Stall: raceStall, Harness: code == 3, Log: stderr, Note: "N goroutines x M renders, first each goroutine alone, then all at once (the -race probe)"}, nil
+}
+
+type raceTally struct {
+	totalGor, totalRenders, races, deaths  int
+	hangs                                  int
+	badProp, badTie, badIDs                int
+	mwRenders, freshSteps, scenarios, done int
+	freshBufs                              int64
+}
+
+func (t *raceTally) oblige(c *core.Ctx) {
+	c.Oblige("correspondence", "concurrent: every scenario ran to its end in the -race process (no crash, deadlock or endless loop of the code under test)", t.deaths == 0 && t.done == t.scenarios, fmt.Sprintf("%d scenarios, %d finished, %d ended their process", t.scenarios, t.done, t.deaths))
+	c.Oblige("correspondence", "no data race reported in N x M concurrent renders (with and without TEMPL_DEV_MODE)", t.races == 0, fmt.Sprintf("%d goroutine-programs, %d renders", t.totalGor, t.totalRenders))
+	c.Oblige("correspondence", "each goroutine's bytes, flushes and errors under concurrency = its sequential reference (C14_isolation on the binary)", t.badProp == 0, fmt.Sprintf("%d goroutine-programs, %d differ", t.totalGor, t.badProp))
+	c.Oblige("correspondence", "model stand-alone output = each goroutine's concurrent output", t.badTie == 0, fmt.Sprintf("%d goroutine-programs, %d differ", t.totalGor, t.badTie))
+	c.Oblige("correspondence", "once-handle ids distinct across goroutines", t.badIDs == 0, "")
+}
+
+func concurrentInput(sc *probe.Scenario, dev bool, mode string) map[string]any {
+	return map[string]any{"kind": "concurrent", "dev": dev, "mode": mode, "scenario": sc,
+		"how": "build/vcheck_C14 C14 --replay <this file> runs the scenario again in the -race probe: every goroutine alone, then all at once"}
+}
+
+// scenarioOfRace: the scenario the -race probe was running when it printed its first race report (it names each on stderr).
+func scenarioOfRace(stderr string) int {
+	i := strings.Index(stderr, "WARNING: DATA RACE")
+	if i < 0 {
+		return -1
+	}
+	k := strings.LastIndex(stderr[:i], "c14race: scenario ")
+	if k < 0 {
+		return -1
+	}
+	n := -1
+	fmt.Sscanf(stderr[k:], "c14race: scenario %d", &n)
+	return n
+}
+
+// shrinkRaceDeath: fewer goroutines, then fewer renders, as long as the -race process still ends the same way (two attempts
+// per candidate: what happens under real concurrency need not happen every time).
+func shrinkRaceDeath(bin string, sc *probe.Scenario, dev bool, d *death) (*probe.Scenario, *death) {
+	if d.Hung {
+		return sc, d // every candidate that hangs again costs the stall time: the scenario stays as it is
+	}
+	deadline := time.Now().Add(90 * time.Second)
+	dies := func(cand *probe.Scenario) *death {
+		for a := 0; a < 2 && time.Now().Before(deadline); a++ {
+			if _, _, _, dd, err := runRace(bin, []*probe.Scenario{cand}, dev); err == nil && sameEnd(d, dd) {
+				return dd
+			}
+		}
+		return nil
+	}
+	for changed := true; changed && time.Now().Before(deadline); {
+		changed = false
+		if n := len(sc.Gor); n > 1 {
+			for _, part := range [][2]int{{0, n / 2}, {n / 2, n}} {
+				cp := *sc
+				cp.Gor = append([]probe.Goroutine{}, sc.Gor[part[0]:part[1]]...)
+				if dd := dies(&cp); dd != nil {
+					sc, d, changed = &cp, dd, true
+					break
+				}
+			}
+		}
+		if changed {
+			continue
+		}
+		most := 0
+		for _, g := range sc.Gor {
+			if len(g.Renders) > most {
+				most = len(g.Renders)
+			}
+		}
+		if most > 1 {
+			cp := *sc
+			cp.Gor = append([]probe.Goroutine{}, sc.Gor...)
+			for gi := range cp.Gor {
+				if rs := cp.Gor[gi].Renders; len(rs) > (most+1)/2 {
+					cp.Gor[gi].Renders = append([]probe.Render{}, rs[:(most+1)/2]...)
+				}
+			}
+			cp.Rounds = 1
+			if dd := dies(&cp); dd != nil {
+				sc, d, changed = &cp, dd, true
+			}
+		}
+	}
+	return sc, d
+}
+
+// raceBatch runs the scenarios in the -race probe (one process; a new one for the rest after a scenario ended it) and judges them.
+func raceBatch(c *core.Ctx, bin string, scs []*probe.Scenario, dev bool, round int, t *raceTally) {
+	mode := "TEMPL_DEV_MODE=false"
+	if dev {
+		mode = "TEMPL_DEV_MODE=true"
+	}
+	t.scenarios += len(scs)
+	outs := make([]*raceOut, len(scs))
+	deathsHere := 0
+	for lo := 0; lo < len(scs) && deathsHere < 3 && t.deaths < 6 && t.hangs == 0; {
+		got, stderr, code, d, err := runRace(bin, scs[lo:], dev)
+		if err != nil {
+			c.Oblige("correspondence", "the -race probe runs ("+mode+")", false, err.Error())
+			return
+		}
+		for i := range got {
+			outs[lo+i] = &got[i]
+		}
+		if strings.Contains(stderr, "DATA RACE") || code == 66 {
+			t.races++
+			in := map[string]any{"kind": "concurrent", "dev": dev, "mode": mode, "seed": c.Seed, "round": round}
+			if k := scenarioOfRace(stderr); k >= 0 && lo+k < len(scs) {
+				in = concurrentInput(scs[lo+k], dev, mode)
+			}
+			failc(c, "property", "data-race", "data-race", in, "race detector report: "+firstReport(stderr))
+		}
+		if d == nil {
+			break
+		}
+		if d.Harness {
+			c.Oblige("correspondence", "the -race probe reads its scenarios ("+mode+")", false, short(stderr))
+			return
+		}
+		k := lo + d.Done
+		t.deaths++
+		deathsHere++
+		if d.Hung {
+			t.hangs++
+		}
+		// the scenario that was in progress, alone in a new process (twice: real concurrency need not repeat itself)
+		sc := scs[k]
+		var d1 *death
+		for a := 0; a < 2 && d1 == nil && (a == 0 || !d.Hung); a++ {
+			if _, _, _, dd, err := runRace(bin, []*probe.Scenario{sc}, dev); err == nil && sameEnd(d, dd) {
+				d1 = dd
+			}
+		}
+		in := concurrentInput(sc, dev, mode)
+		if d1 != nil {
+			if t.deaths == 1 {
+				sc, d1 = shrinkRaceDeath(bin, sc, dev, d1)
+				in = concurrentInput(sc, dev, mode)
+			}
+			d = d1
+		} else {
+			d.Note += "; it did not end that way again when run alone twice; seed/round and the scenarios before it in the same process are part of the input"
+			in["seed"], in["round"], in["earlier_scenarios"] = c.Seed, round, scs[lo:k]
+		}
+		shape := "render-crashed"
+		if d.Hung {
+			shape = "render-hung"
+		}
+		failc(c, "property", "concurrent: every render returns", shape, in, d.describe())
+		c.Hist("concurrent: -race process " + shape)
+		lo = k + 1
+	}
+	var reqs []drv.Req
+	for _, sc := range scs {
+		for _, g := range sc.Gor {
+			reqs = append(reqs, modelReq("alone", sc, g, dev))
+		}
+	}
+	res := c.Model(reqs)
+	k := 0
+	for i, sc := range scs {
+		if outs[i] == nil {
+			k += len(sc.Gor)
+			continue
+		}
+		t.done++
+		o := *outs[i]
+		seen := map[int64]string{}
+		for gi, g := range sc.Gor {
+			t.totalGor++
+			t.totalRenders += len(g.Renders)
+			key := classify(sc, g)
+			if key != "" {
+				key = mode + "|" + key
+			}
+			c.Count(key)
+			c.Hist(fmt.Sprintf("%s writer=%s slow=%d", mode, map[bool]string{true: "failing", false: "ok"}[g.Cap >= 0], g.Slow))
+			c.Hist("concurrent: destination " + destNames[g.Dest])
+			for _, rd := range g.Renders {
+				if rd.Mw {
+					t.mwRenders++
+				}
+				if rd.Fresh != 0 {
+					t.freshSteps++
+				}
+			}
+			if gi < len(o.Got) && gi < len(o.Ref) {
+				got, ref := o.Got[gi], o.Ref[gi]
+				if t.totalGor <= 2 {
+					c.Sample(map[string]any{"family": "concurrent", "mode": mode, "program": short(actsString(compileGoroutine(sc, g, dev))), "cap": g.Cap, "out": short(got.Out), "flushes": len(got.Flushes)})
+				}
+				input := func() map[string]any {
+					in := concurrentInput(sc, dev, mode)
+					in["goroutine"], in["of"], in["program"], in["cap"], in["slow"], in["seed"] = gi, len(sc.Gor), short(actsString(compileGoroutine(sc, g, dev))), g.Cap, g.Slow, c.Seed
+					return in
+				}
+				if !sameResult(got, ref) {
+					t.badProp++
+					failc(c, "property", "concurrent-vs-alone", "output-differs-from-alone", input(),
+						fmt.Sprintf("%s | alone: %s | concurrent: %s", diffAt(ref.Out, got.Out), short(ref.String()), short(got.String())))
+				}
+				for _, id := range got.IDs {
+					who := fmt.Sprintf("goroutine %d", gi)
+					if prev, dup := seen[id]; dup {
+						t.badIDs++
+						in := input()
+						in["id"] = id
+						failc(c, "property", "once-handle-ids", "duplicate-once-handle-id", in, prev+" and "+who+" obtained the same id")
+					}
+					seen[id] = who
+				}
+				if k < len(res) && len(res[k]) >= 3 {
+					a := res[k]
+					if !modelAgrees(a, g, got) {
+						t.badTie++
+						failc(c, "tie", "model-output-vs-concurrent", "", input(),
+							fmt.Sprintf("model out %q ids %s finished %s | real out %q ids %d", short(string(a[0])), a[2], a[1], short(got.Out), len(got.IDs)))
+					}
+				} else {
+					t.badTie++
+				}
+			} else {
+				t.badProp++
+			}
+			k++
+		}
+		t.freshBufs += o.Fresh
+		if dev && sc.Touch {
+			c.Hist(fmt.Sprintf("dev text file touched during run: %v", o.Touches > 0))
+		}
+	}
 }
 
 func raceRuns(c *core.Ctx) {
@@ -1184,118 +1846,23 @@ func raceRuns(c *core.Ctx) {
 	nGor := c.N(12, 16)
 	nRen := c.N(40, 120)
 	rounds := c.N(2, 3)
-	totalGor, totalRenders, races := 0, 0, 0
-	badProp, badTie, badIDs := 0, 0, 0
-	mwRenders, freshSteps := 0, 0
-	var freshBufs int64
+	var t raceTally
 	for _, dev := range []bool{false, true} {
 		for round := 0; round < rounds; round++ {
 			var scs []*probe.Scenario
 			for i := 0; i < nSc; i++ {
 				scs = append(scs, genScenario(c.Rng, nGor, nRen, dev && i%2 == 0, true))
 			}
-			outs, stderr, code, err := runRace(bin, scs, dev)
-			mode := "TEMPL_DEV_MODE=false"
-			if dev {
-				mode = "TEMPL_DEV_MODE=true"
-			}
-			if err != nil {
-				c.Oblige("correspondence", "the -race probe runs ("+mode+")", false, err.Error())
-				continue
-			}
-			if strings.Contains(stderr, "DATA RACE") || code == 66 {
-				races++
-				failc(c, "property", "data-race", "data-race", map[string]any{"mode": mode, "goroutines": nGor, "renders_each": nRen, "scenarios": nSc, "seed": c.Seed, "round": round},
-					"race detector report: "+firstReport(stderr))
-			}
-			if outs == nil {
-				failc(c, "property", "concurrent-renders-crash", "crash", map[string]any{"mode": mode, "goroutines": nGor, "renders_each": nRen, "seed": c.Seed, "round": round},
-					fmt.Sprintf("exit %d: %s", code, short(stderr)))
-				continue
-			}
-			var reqs []drv.Req
-			for i, sc := range scs {
-				for _, g := range sc.Gor {
-					reqs = append(reqs, modelReq("alone", sc, g, dev))
-				}
-				_ = i
-			}
-			res := c.Model(reqs)
-			k := 0
-			for i, sc := range scs {
-				if i >= len(outs) {
-					break
-				}
-				o := outs[i]
-				seen := map[int64]string{}
-				for gi, g := range sc.Gor {
-					totalGor++
-					totalRenders += len(g.Renders)
-					key := classify(sc, g)
-					if key != "" {
-						key = mode + "|" + key
-					}
-					c.Count(key)
-					c.Hist(fmt.Sprintf("%s writer=%s slow=%d", mode, map[bool]string{true: "failing", false: "ok"}[g.Cap >= 0], g.Slow))
-					c.Hist("concurrent: destination " + destNames[g.Dest])
-					for _, rd := range g.Renders {
-						if rd.Mw {
-							mwRenders++
-						}
-						if rd.Fresh != 0 {
-							freshSteps++
-						}
-					}
-					if gi < len(o.Got) && gi < len(o.Ref) {
-						got, ref := o.Got[gi], o.Ref[gi]
-						if totalGor <= 2 {
-							c.Sample(map[string]any{"family": "concurrent", "mode": mode, "program": short(actsString(compileGoroutine(sc, g, dev))), "cap": g.Cap, "out": short(got.Out), "flushes": len(got.Flushes)})
-						}
-						if !sameResult(got, ref) {
-							badProp++
-							failc(c, "property", "concurrent-vs-alone", "output-differs-from-alone", map[string]any{"mode": mode, "goroutine": gi, "of": len(sc.Gor), "program": short(actsString(compileGoroutine(sc, g, dev))), "cap": g.Cap, "slow": g.Slow, "seed": c.Seed},
-								fmt.Sprintf("alone: %s | concurrent: %s", short(ref.String()), short(got.String())))
-						}
-						for _, id := range got.IDs {
-							who := fmt.Sprintf("goroutine %d", gi)
-							if prev, dup := seen[id]; dup {
-								badIDs++
-								failc(c, "property", "once-handle-ids", "duplicate-once-handle-id", map[string]any{"mode": mode, "id": id}, prev+" and "+who+" obtained the same id")
-							}
-							seen[id] = who
-						}
-						if k < len(res) && len(res[k]) >= 3 {
-							a := res[k]
-							if !modelAgrees(a, g, got) {
-								badTie++
-								failc(c, "tie", "model-output-vs-concurrent", "", map[string]any{"mode": mode, "goroutine": gi, "program": short(actsString(compileGoroutine(sc, g, dev))), "cap": g.Cap},
-									fmt.Sprintf("model out %q ids %s finished %s | real out %q ids %d", short(string(a[0])), a[2], a[1], short(got.Out), len(got.IDs)))
-							}
-						} else {
-							badTie++
-						}
-					} else {
-						badProp++
-					}
-					k++
-				}
-				freshBufs += o.Fresh
-				if dev && sc.Touch {
-					c.Hist(fmt.Sprintf("dev text file touched during run: %v", o.Touches > 0))
-				}
-			}
+			raceBatch(c, bin, scs, dev, round, &t)
 		}
 	}
-	c.Extra["race_goroutines"] = totalGor
-	c.Extra["race_renders"] = totalRenders
+	c.Extra["race_goroutines"] = t.totalGor
+	c.Extra["race_renders"] = t.totalRenders
 	c.Extra["race_total_s"] = time.Since(t0).Seconds()
-	c.Extra["race_requests_through_middleware"] = mwRenders
-	c.Extra["race_pool_emptied_or_collected"] = freshSteps
-	c.Extra["race_buffers_constructed_by_pool"] = freshBufs
-	c.Oblige("correspondence", "no data race reported in N x M concurrent renders (with and without TEMPL_DEV_MODE)", races == 0, fmt.Sprintf("%d goroutine-programs, %d renders", totalGor, totalRenders))
-	c.Oblige("correspondence", "each goroutine's bytes, flushes and errors under concurrency = its sequential reference (C14_isolation on the binary)", badProp == 0, fmt.Sprintf("%d goroutine-programs, %d differ", totalGor, badProp))
-	c.Oblige("correspondence", "model stand-alone output = each goroutine's concurrent output", badTie == 0, fmt.Sprintf("%d goroutine-programs, %d differ", totalGor, badTie))
-	c.Oblige("correspondence", "once-handle ids distinct across goroutines", badIDs == 0, "")
+	c.Extra["race_requests_through_middleware"] = t.mwRenders
+	c.Extra["race_pool_emptied_or_collected"] = t.freshSteps
+	c.Extra["race_buffers_constructed_by_pool"] = t.freshBufs
+	t.oblige(c)
 }
 
 func firstReport(stderr string) string {
